@@ -46,6 +46,10 @@ where
     define_component: Option<SyntaxContext>,
     interfaces: FnvHashMap<(Atom, SyntaxContext), TsInterfaceDecl>,
     type_aliases: FnvHashMap<(Atom, SyntaxContext), TsType>,
+    /// runtime types (`String` / `Number`) of the members of the enums declared in the module
+    enums: FnvHashMap<(Atom, SyntaxContext), Vec<Atom>>,
+    /// names bound by import declarations: nothing is known about the types behind them
+    imported_names: FnvHashMap<(Atom, SyntaxContext), ()>,
     type_decls_collected: bool,
     type_resolution_depth: std::cell::Cell<usize>,
 
@@ -75,6 +79,8 @@ where
             define_component: None,
             interfaces: Default::default(),
             type_aliases: Default::default(),
+            enums: Default::default(),
+            imported_names: Default::default(),
             type_decls_collected: false,
             type_resolution_depth: Default::default(),
 
@@ -1284,6 +1290,8 @@ where
             module.visit_with(&mut TypeDeclCollector {
                 interfaces: &mut self.interfaces,
                 type_aliases: &mut self.type_aliases,
+                enums: &mut self.enums,
+                imported_names: &mut self.imported_names,
             });
             self.type_decls_collected = true;
         }
@@ -1763,6 +1771,8 @@ where
 struct TypeDeclCollector<'a> {
     interfaces: &'a mut FnvHashMap<(Atom, SyntaxContext), TsInterfaceDecl>,
     type_aliases: &'a mut FnvHashMap<(Atom, SyntaxContext), TsType>,
+    enums: &'a mut FnvHashMap<(Atom, SyntaxContext), Vec<Atom>>,
+    imported_names: &'a mut FnvHashMap<(Atom, SyntaxContext), ()>,
 }
 
 impl Visit for TypeDeclCollector<'_> {
@@ -1791,6 +1801,34 @@ impl Visit for TypeDeclCollector<'_> {
             ),
             (*ts_type_alias_decl.type_ann).clone(),
         );
+    }
+
+    fn visit_ts_enum_decl(&mut self, ts_enum_decl: &TsEnumDecl) {
+        // a member is a string only when it is initialised with a string (template) literal
+        let mut types = Vec::with_capacity(2);
+        for member in &ts_enum_decl.members {
+            let ty = match member.init.as_deref() {
+                Some(Expr::Lit(Lit::Str(..))) | Some(Expr::Tpl(..)) => Atom::from("String"),
+                _ => Atom::from("Number"),
+            };
+            if !types.contains(&ty) {
+                types.push(ty);
+            }
+        }
+        self.enums
+            .insert((ts_enum_decl.id.sym.clone(), ts_enum_decl.id.ctxt), types);
+    }
+
+    fn visit_import_decl(&mut self, import_decl: &ImportDecl) {
+        for specifier in &import_decl.specifiers {
+            let local = match specifier {
+                ImportSpecifier::Named(ImportNamedSpecifier { local, .. })
+                | ImportSpecifier::Default(ImportDefaultSpecifier { local, .. })
+                | ImportSpecifier::Namespace(ImportStarAsSpecifier { local, .. }) => local,
+            };
+            self.imported_names
+                .insert((local.sym.clone(), local.ctxt), ());
+        }
     }
 }
 
